@@ -51,6 +51,7 @@ def parse_graph(graph, sc):
                 neg = g.startswith("!")
                 name = g[1:] if neg else g
                 name = name[3:] if name.startswith("fn_") else name      # a guard given as a function object
+                name = name.lstrip("_")                                   # (some user names start with an underscore)
                 gs.append([int(name[1:]), not neg])
         edges.append([None if src == "i" else int(src[1:]), None if dst == "i" else int(dst[1:]), evs, gs])
     # what gets drawn is the DOT text: every edge object must also be in it (an arrow per edge)
@@ -180,6 +181,7 @@ def coq_case(sc, obs):
     return "[" + "; ".join(cs) + "]"
 
 
+CASE_TYPE = "list case"
 VERDICT_FN = "(fun cs => fold_left (fun acc c => if Nat.eqb acc 0 then verdict c else acc) cs 0)"
 
 
